@@ -1647,10 +1647,12 @@ class Torrent():
 
             # Extract 'pieces' from metainfo before decoding because it's the
             # only byte sequence that isn't supposed to be decoded to a string.
+            # (If it is not a byte sequence, it is invalid and decoded like
+            # everything else so that absurdly nested lists are caught below.)
             try:
                 if (b'info' in metainfo_enc and
                     isinstance(metainfo_enc[b'info'], dict) and
-                    b'pieces' in metainfo_enc[b'info']):
+                    isinstance(metainfo_enc[b'info'].get(b'pieces'), (bytes, bytearray))):
                     pieces = metainfo_enc[b'info'].pop(b'pieces')
                     metainfo = utils.decode_dict(metainfo_enc)
                     metainfo['info']['pieces'] = pieces
